@@ -1088,12 +1088,16 @@ def iter_driver(ex, kind, items, closure, dty):
     return ("__inline__", b, [env] + list(items))
 
 
-@model(r"<(?:std|core)::slice::Iter(?:Mut)?<'_, .*> as Iterator>::(for_each|all|any|position|find)::<.*>$|<(?:std::collections::)?vec_deque::Iter(?:Mut)?<'_, .*> as Iterator>::(for_each|all|any|position|find)::<.*>$|<(?:std::iter::|core::iter::)?TakeWhile<.*> as Iterator>::(for_each|all|any|position|find)::<.*>$")
+@model(r"<(?:std|core)::slice::Iter(?:Mut)?<'_, .*> as Iterator>::(for_each|all|any|position|find)::<.*>$|<(?:std::collections::)?vec_deque::Iter(?:Mut)?<'_, .*> as Iterator>::(for_each|all|any|position|find)::<.*>$|<(?:std::iter::|core::iter::)?TakeWhile<.*> as Iterator>::(for_each|all|any|position|find)::<.*>$|<(?:std::iter::|core::iter::)?Enumerate<.*> as Iterator>::(for_each|all|any|position)::<.*>$")
 def m_iter_adaptor(ex, st, callee, args, dty, m):
-    items = _seq_item_refs(ex, args[0])
+    base = deref(ex, args[0]) if isinstance(args[0], Ref) else args[0]
+    if isinstance(base, Agg) and base.name == "EnumIter":
+        items = _adaptor_items(ex, base)       # (index, &element) pairs, by value
+    else:
+        items = _seq_item_refs(ex, args[0])
     if items is None:
         return NotImplemented
-    kind = m.group(1) or m.group(2) or m.group(3)
+    kind = m.group(1) or m.group(2) or m.group(3) or m.group(4)
     if kind == "find":
         # the predicate receives `&Self::Item`; the result is the item itself
         res = iter_driver(ex, "find", [Ref(Cell(it), ()) for it in items], args[1], dty)
